@@ -226,6 +226,12 @@ pub fn arity_ok(n: &Tree) -> bool {
     ok && n.children().iter().all(arity_ok)
 }
 
+/// Tree equality with NaN == NaN (D13): the derived PartialEq, or identical Debug text (a tree
+/// holding the constant `nan` is not equal to itself under PartialEq).
+pub fn tree_same(a: &Tree, b: &Tree) -> bool {
+    a == b || format!("{:?}", a) == format!("{:?}", b)
+}
+
 pub fn tree_depth(n: &Tree) -> usize {
     1 + n.children().iter().map(tree_depth).max().unwrap_or(0)
 }
@@ -251,6 +257,7 @@ pub fn take_log(l: &Log) -> Vec<CallRec> {
 fn rv_err_to_real(e: RE) -> Err {
     match e {
         RE::Custom(m) => EvalexprError::CustomMessage(m),
+        RE::FnNotFound(n) => EvalexprError::FunctionIdentifierNotFound(n),
         RE::Expected(Exp::Int, v) => EvalexprError::expected_int(from_rv(&v)),
         other => EvalexprError::CustomMessage(format!("harness-uf-error:{:?}", other)),
     }
